@@ -146,7 +146,7 @@ func (p *protoSvc) connect() (net.Conn, error) {
 func (p *protoSvc) waitActive(n int64, bound time.Duration) bool {
 	dl := time.Now().Add(bound)
 	for {
-		if p.svc.VerifActiveConnections() == n {
+		if activeConns(p.svc) == n {
 			return true
 		}
 		if time.Now().After(dl) {
@@ -468,9 +468,9 @@ func ExecProto(c ProtoCase, bound time.Duration) (*ProtoOutcome, error) {
 	}
 	if !p.waitActive(base, bound) {
 		if len(lingering) > 0 {
-			return out, fmt.Errorf("active-connection count is %d, want %d (waited %v): %d connection(s) that the service had to end are still accounted as open while their clients have not hung up - the service's side was not released", p.svc.VerifActiveConnections(), base, bound, len(lingering))
+			return out, fmt.Errorf("active-connection count is %d, want %d (waited %v): %d connection(s) that the service had to end are still accounted as open while their clients have not hung up - the service's side was not released", activeConns(p.svc), base, bound, len(lingering))
 		}
-		return out, fmt.Errorf("active-connection count is %d, want %d, %v after all test connections ended", p.svc.VerifActiveConnections(), base, bound)
+		return out, fmt.Errorf("active-connection count is %d, want %d, %v after all test connections ended", activeConns(p.svc), base, bound)
 	}
 	lingerMu.Lock()
 	for _, l := range lingering {
